@@ -13,9 +13,10 @@ Values of the flow: {"d":data} (bare) or {"d":data,"c":D}.
 Request:
   {"op":"run","names":[..],"fx":bool,"exprs":[E..],"vals":[value..]}
     -> {"e":<exception>,"phase":"init"}                       a constructor raised
-     | {"vcs":[D..],"outs":[{"d":data,"c":D} | {"e":<exception>} ..]}
+     | {"vcs":[D..],"outs":[{"d":data,"c":D} | {"e":<exception>} ..],"wf":[bool..],"namesok":bool}
        `vcs` the var_contexts of the constructed variables, `outs[i]` = the variables applied one after the
-       other (`seqCall`) to `vals[i]`. -/
+       other (`seqCall`) to `vals[i]`, `wf[i]` = `chainWFb` (the hypothesis `ChainWF` of `compose_eq_sequence`)
+       for `vals[i]`, `namesok` = `namesOKb` (hypothesis `NamesOK`). -/
 open Lean Lena.Drv Lena.C14
 
 inductive Data where
@@ -113,7 +114,10 @@ def handle (j : Json) : Json :=
             match seqCall names fx vars x with
             | .ok (d, c) => Json.mkObj [("d", ofData d), ("c", ofD c)]
             | .error e => Json.mkObj [("e", errName e)])
-          Json.mkObj [("vcs", ofList (fun v => ofD v.varCtx) vars), ("outs", Json.arr outs.toArray)]
+          -- the hypotheses of the theorems (`NamesOK`, `ChainWF`) for every value, as Boolean checks
+          let wf := vals.map (fun x => Json.bool (chainWFb names (cvarOf names x) (vars.map Variable.varCtx)))
+          Json.mkObj [("vcs", ofList (fun v => ofD v.varCtx) vars), ("outs", Json.arr outs.toArray),
+                      ("wf", Json.arr wf.toArray), ("namesok", Json.bool (namesOKb names))]
     | _, _, _, _ => err "bad run args"
   | _ => err "unknown op"
 
